@@ -408,7 +408,7 @@ func checkC02(c *Check) {
 	}
 
 	// ---- R6 `route` parameter on both dispatch paths
-	c.Rule("R6", "E6 sibling agreement", "on both dispatch paths the params handed to the handler hold \"route\" = Route() of the very leaf whose Handler() is invoked", 2)
+	c.Rule("R6", "E6 sibling agreement", "on both dispatch paths the params handed to the handler hold \"route\" = Route() of the very leaf whose Handler() is invoked", 1)
 	if sh := p.Meth("flamego", "router", "ServeHTTP"); sh != nil {
 		n := 0
 		allInstrs(sh, func(in ssa.Instruction) {
